@@ -51,6 +51,12 @@ func hYSArr() hole {
 func hYSBad() hole { // yield* over a non-iterable
 	return hole{"y*num", func(k int) *gm.N { return gm.YS(gm.NumN(k)) }, true}
 }
+func hProm() hole { // async rendering: the deferred promise itself (returned / awaited without df)
+	return hole{"dfp", func(k int) *gm.N { return &gm.N{K: gm.Prom, I: k} }, false}
+}
+func hYProm() hole {
+	return hole{"y(dfp)", func(k int) *gm.N { return gm.Y(&gm.N{K: gm.Prom, I: k + 1}) }, true}
+}
 func hSelf(op string) hole {
 	return hole{"self." + op, func(k int) *gm.N { return gm.SelfN(op, gm.NumN(k*100)) }, false}
 }
@@ -125,6 +131,10 @@ func ectxs() []ectx {
 		{"getm", 2, func(h ...*gm.N) *gm.N {
 			return gm.E(gm.GetM, gm.ObjN(gm.KeyN("k"), h[0], gm.KeyN("m"), gm.NumN(9)), h[1])
 		}},
+		// a value-discarding position (left operand of a comma) inside a partially built array literal
+		{"discard-in-arr", 2, func(h ...*gm.N) *gm.N {
+			return gm.E(gm.Arr, gm.NumN(1), gm.ES(gm.Bin, ",", h[0], gm.NumN(2)), h[1])
+		}},
 		{"typeof", 1, func(h ...*gm.N) *gm.N { return gm.E(gm.TypeOf, h[0]) }},
 		{"not", 1, func(h ...*gm.N) *gm.N { return gm.E(gm.Not, h[0]) }},
 		{"asg-b", 1, func(h ...*gm.N) *gm.N { return gm.AsgN("b", h[0]) }},
@@ -148,6 +158,7 @@ func fills2(rich bool) [][2]hole {
 			[2]hole{hYSG(1), hY()}, [2]hole{hY(), hYSG(1)}, [2]hole{hYSG(2), hC()}, [2]hole{hC(), hYSG(3)},
 			[2]hole{hYSArr(), hY()}, [2]hole{hY(), hYSArr()},
 			[2]hole{hYSIt(gm.ItHasThrow | gm.ItHasReturn), hY()}, [2]hole{hC(), hYSIt(gm.ItHasReturn)},
+			[2]hole{hYSIt(gm.ItHasThrow | gm.ItThrowDone), hC()},
 			[2]hole{hSelf("next"), hY()}, [2]hole{hY(), hSelf("return")})
 	}
 	return res
@@ -158,7 +169,7 @@ func fills2(rich bool) [][2]hole {
 func exprs(depth int, rich bool) []ex {
 	var res []ex
 	// single fillers first
-	for _, h := range []hole{hY(), hY0(), hYY(), hYSG(1), hYSG(2), hYSG(3), hYSArr(), hYSBad()} {
+	for _, h := range []hole{hY(), hY0(), hYY(), hYSG(1), hYSG(2), hYSG(3), hYSArr(), hYSBad(), hProm(), hYProm()} {
 		h := h
 		res = append(res, ex{h.name, func() *gm.N { return h.mk(1) }})
 	}
@@ -180,7 +191,7 @@ func exprs(depth int, rich bool) []ex {
 			}
 			continue
 		}
-		for _, f := range fills2(rich && ci < 3) {
+		for _, f := range fills2(rich && (ci < 3 || c.name == "discard-in-arr")) {
 			f := f
 			res = append(res, ex{c.name + "(" + f[0].name + "," + f[1].name + ")", func() *gm.N { return c.mk(f[0].mk(1), f[1].mk(2)) }})
 		}
@@ -300,7 +311,7 @@ func sctxs() []sctx {
 	}
 }
 
-const nSingleFillers = 21 // exprs() lists the single hole fillers first
+const nSingleFillers = 23 // exprs() lists the single hole fillers first
 
 const nCoreSctx = 13 // the first nCoreSctx statement contexts compose at depth >= 2 in the quick tier
 
@@ -421,8 +432,8 @@ func Enumerate(b Bounds) []Case {
 			if d <= 1 {
 				for _, fm := range forms[1:] {
 					// the other statement forms hold the single hole fillers: the statement form `X;`
-					// (value discarded) all of them, the others the first eight
-					n := 8
+					// (value discarded) all of them, the others the first ten
+					n := 10
 					if fm.name == "expr" {
 						n = nSingleFillers
 					}
